@@ -13,7 +13,7 @@ import PdfVerif.Lemmas.Roundtrip
 import PdfVerif.Model.Type1Header
 
 namespace PdfVerif.SimpleFont
-open PdfVerif PdfVerif.Lexer PdfVerif.StackParser PdfVerif.Gen.LexTables PdfVerif.Roundtrip
+open PdfVerif PdfVerif.Lexer PdfVerif.StackParser PdfVerif.Gen.LexTables PdfVerif.Roundtrip PdfVerif.Gen.FontCode
 
 def kwDup : Bytes := [100, 117, 112]
 
@@ -200,7 +200,7 @@ theorem feed_put_line (st : T1State) (he : st.error = none) (k : Int) (nm : Byte
       (kwPut == ([123] : Bytes)) = false ∧ (kwPut == ([125] : Bytes)) = false := by decide
   obtain ⟨k1, k2, k3, k4, k5, k6⟩ := hk
   simp only [t1Feed, t1Push, he, Option.isSome_none, Bool.false_eq_true, if_false, k1, k2, k3, k4, k5, k6,
-    t1Keyword, beq_self_eq_true, if_true, List.length_append, List.length_cons, List.length_nil]
+    t1Keyword, beq_self_eq_true, if_true, List.length_append, List.length_cons, List.length_nil, T1_PUT_ARITY]
   have hn : ¬ (st.curstack.length + (0 + 1) + (0 + 1) < 2) := by omega
   simp only [hn, if_false]
   have hd : (st.curstack ++ [SObj.int k] ++ [SObj.lit nm]).drop (st.curstack.length + (0 + 1) + (0 + 1) - 2) =
